@@ -95,7 +95,8 @@ def export_model_spec(rnd, fam, focus=None):
       if t in ("conv_bn", "dw_bn", "bn"):
         kw = {"center": rnd.random() < 0.8, "scale": rnd.random() < 0.8}
         if forced:
-          kw = {"center": True, "scale": True}
+          kw = rnd.choice([{"center": True, "scale": True}, {"center": True, "scale": True},
+                           {"center": True, "scale": False}, {"center": False, "scale": True}])
         r = rnd.random()
         if r < 0.4:
           kw.update(gamma_quantizer=Qd("quantized_relu_po2", bits=6, max_value=4), beta_quantizer=Qd("quantized_po2", bits=5, max_value=4),
@@ -435,7 +436,7 @@ def check_export(ctx, model, snap0, snap1, d, base):
     pb = dict(snap1[l.name]).get("bias", 0.0) if l.use_bias else 0.0
     fb = inv * np.asarray(pb, dtype=np.float64) + np.asarray(b, dtype=np.float64) - inv * np.asarray(mu, dtype=np.float64)
     if len(bn.weights) != 4:
-      continue      # incomplete BN: covered by the stored-weight pairing check (F-C14-1 region)
+      ctx.count("bn_fusing_checked_incomplete_bn")      # center=False and / or scale=False: gamma = 1 / beta = 0
     if not np.allclose(np.asarray(entry["bn_inv"], dtype=np.float64), inv, rtol=2e-5, atol=1e-7):
       ctx.violation(dict(base, kind="bn_inv_differs_from_batchnorm_algebra", layer=cn),
                     "%s: %r vs %r" % (l.name, np.asarray(entry["bn_inv"]).ravel()[:3].tolist(), inv.ravel()[:3].tolist()), None)
